@@ -1,8 +1,239 @@
-import BrushVerif.Model.Wire
-/-! Driver for C04 (stub until the property's model exists). -/
-namespace BrushVerif.Drv.C04
-open BrushVerif.Wire
+import BrushVerif.Model.Expand
+import BrushVerif.Spec.WordExp
+/-!
+Driver for C04 and C05 (shared wire format; `Drv/C05.lean` re-exports `handle`).
 
-def handle (_toks : List Str) : Str := "unimplemented".toList
+Request: escaped fields, the first character of each field is a tag. Environment:
+`i<ifs>` | `u` (IFS unset), `o<letters>` (n nullglob, f failglob, d dotglob, e/E extglob on/off, g noglob),
+`p<arg>`…, `v<name>=<val>`…, `a<name>` `e<elem>`…, `h<home>`, `n<dir entry>`….
+Mode `Kw` (full expansion, default), `Ks` (expansion to one string), `Kb` (full expansion, followed by ` %| ` and
+the reference semantics `WordExp.specExpandB`).
+Word, in prefix notation: `T<text>` `Q<single quoted>` `N<ansi-c, decoded>` `E<escaped char>` `H` (tilde)
+`C<command output>` `M<arith value>` `V<name>` `P<k>` `X@` `X*` `A@<name>` `A*<name>` `#`,
+`D(` … `D)` double quotes, `O<-|+><:|.>` `<param>` … `O)` for `${p:-w}` and friends,
+`B(` … `B|` … `B)` brace expression.  Lower-case tags not listed are ignored (they are for the Rust harness).
+Response: `OK f1 f2 …` | `ERR` (failglob), followed by ` ;U` when a field's glob pattern lies outside the
+regex subset the pattern model executes.
+-/
+namespace BrushVerif.Drv.C04
+open BrushVerif.Wire BrushVerif.Expand
+
+def parseParam (t : Str) : Option Param :=
+  match t with
+  | 'V' :: n => some (.named n)
+  | 'P' :: k => (parseNat? k).map .pos
+  | ['X', '@'] => some (.allPos false)
+  | ['X', '*'] => some (.allPos true)
+  | 'A' :: '@' :: n => some (.allIdx n false)
+  | 'A' :: '*' :: n => some (.allIdx n true)
+  | ['#'] => some .count
+  | _ => none
+
+def parseA0 (t : Str) : Option A0 :=
+  match t with
+  | 'T' :: s => some (.text s)
+  | 'Q' :: s => some (.sq s)
+  | 'N' :: s => some (.ansic s)
+  | 'E' :: s => some (.esc s)
+  | ['H'] => some .tilde
+  | 'C' :: s => some (.cmdsub s)
+  | 'M' :: s => some (.arith s)
+  | _ => (parseParam t).map .param
+
+/-- atoms up to the closing token -/
+def parseA0s (close : Str) : List Str → Option (List A0 × List Str)
+  | [] => none
+  | t :: r =>
+    if t = close then some ([], r)
+    else match parseA0 t, parseA0s close r with
+      | some a, some (as, r') => some (a :: as, r')
+      | _, _ => none
+
+def parseW0s : Nat → List Str → Option (List W0 × List Str)
+  | 0, _ => none
+  | _, [] => none
+  | fuel + 1, t :: r =>
+    if t = "O)".toList then some ([], r)
+    else if t = "D(".toList then
+      match parseA0s "D)".toList r with
+      | some (as, r') => (parseW0s fuel r').map fun (ws, r'') => (.dq as :: ws, r'')
+      | none => none
+    else match parseA0 t with
+      | some a => (parseW0s fuel r).map fun (ws, r') => (.plain a :: ws, r')
+      | none => none
+
+/-- one `A1` at the head of the token list -/
+def parseA1 : List Str → Option (A1 × List Str)
+  | [] => none
+  | t :: r =>
+    match t with
+    | ['O', k, c] =>
+      match r with
+      | pt :: r' =>
+        match parseParam pt, parseW0s (r'.length + 1) r' with
+        | some p, some (w, r'') => some (.op (k = '+') (c = ':') p w, r'')
+        | _, _ => none
+      | [] => none
+    | _ => (parseA0 t).map fun a => (.base a, r)
+
+def parseA1s : Nat → List Str → Option (List A1 × List Str)
+  | 0, _ => none
+  | _, [] => none
+  | fuel + 1, t :: r =>
+    if t = "D)".toList then some ([], r)
+    else match parseA1 (t :: r) with
+      | some (a, r') => (parseA1s fuel r').map fun (as, r'') => (a :: as, r'')
+      | none => none
+
+def isStop (t : Str) : Bool := t = "B|".toList || t = "B)".toList
+
+/-- word pieces up to end of input or a brace delimiter (left in place) -/
+def parseWPs : Nat → List Str → Option (Word × List Str)
+  | 0, _ => none
+  | _, [] => some ([], [])
+  | fuel + 1, t :: r =>
+    if isStop t || t = "B(".toList then some ([], t :: r)
+    else if t = "D(".toList then
+      match parseA1s (r.length + 1) r with
+      | some (as, r') => (parseWPs fuel r').map fun (ws, r'') => (.dq as :: ws, r'')
+      | none => none
+    else match parseA1 (t :: r) with
+      | some (a, r') => (parseWPs fuel r').map fun (ws, r'') => (.plain a :: ws, r'')
+      | none => none
+
+def parseAlts : Nat → List Str → Option (List Word × List Str)
+  | 0, _ => none
+  | fuel + 1, ts =>
+    match parseWPs (ts.length + 1) ts with
+    | some (w, t :: r) =>
+      if t = "B)".toList then some ([w], r)
+      else if t = "B|".toList then (parseAlts fuel r).map fun (ws, r') => (w :: ws, r')
+      else none
+    | _ => none
+
+def parseBWord : Nat → List Str → Option BWord
+  | 0, _ => none
+  | _, [] => some []
+  | fuel + 1, t :: r =>
+    if t = "B(".toList then
+      match parseAlts (r.length + 1) r with
+      | some (alts, r') => (parseBWord fuel r').map (.braces alts :: ·)
+      | none => none
+    else match parseWPs (r.length + 2) (t :: r) with
+      | some ([], _) => none
+      | some (w, r') => (parseBWord fuel r').map ((w.map BP.piece) ++ ·)
+      | none => none
+
+structure Req where
+  env : Env := {}
+  opts : Opts := {}
+  names : List Str := []
+  toStr : Bool := false
+  both : Bool := false
+  word : List Str := []
+  curArr : Option (Str × List Str) := none
+  items : List (List Str) := []
+
+def setOpts (o : Opts) : Str → Opts
+  | [] => o
+  | 'n' :: r => setOpts { o with nullglob := true } r
+  | 'f' :: r => setOpts { o with failglob := true } r
+  | 'd' :: r => setOpts { o with dotglob := true } r
+  | 'e' :: r => setOpts { o with extglob := true } r
+  | 'E' :: r => setOpts { o with extglob := false } r
+  | 'g' :: r => setOpts { o with noglob := true } r
+  | _ :: r => setOpts o r
+
+def splitEq : Str → Str × Str
+  | [] => ([], [])
+  | '=' :: r => ([], r)
+  | c :: r => let (a, b) := splitEq r; (c :: a, b)
+
+def flushArr (q : Req) : Req :=
+  match q.curArr with
+  | some (n, els) => { q with env := { q.env with arrays := q.env.arrays ++ [(n, els)] }, curArr := none }
+  | none => q
+
+def stepReq (q : Req) (t : Str) : Req :=
+  match t with
+  | 'e' :: v =>
+    match q.curArr with
+    | some (n, els) => { q with curArr := some (n, els ++ [v]) }
+    | none => q
+  | 'a' :: n => { flushArr q with curArr := some (n, []) }
+  | 'i' :: v => let q := flushArr q; { q with env := { q.env with ifs := some v } }
+  | ['u'] => let q := flushArr q; { q with env := { q.env with ifs := none } }
+  | 'o' :: v => let q := flushArr q; { q with opts := setOpts q.opts v }
+  | 'p' :: v => let q := flushArr q; { q with env := { q.env with args := q.env.args ++ [v] } }
+  | 'h' :: v => let q := flushArr q; { q with env := { q.env with home := v } }
+  | 'n' :: v => let q := flushArr q; { q with names := q.names ++ [v] }
+  | 'v' :: nv => let q := flushArr q; let (n, v) := splitEq nv
+                 { q with env := { q.env with vars := (n, v) :: q.env.vars } }
+  | 'm' :: v => let q := flushArr q; { q with items := q.items ++ [[v]] }
+  | ['z'] => let q := flushArr q; { q with items := q.items ++ [[]] }
+  | '+' :: v => { q with items := q.items.dropLast ++ [(q.items.getLast?.getD []) ++ [v]] }
+  | ['K', 's'] => { flushArr q with toStr := true }
+  | ['K', 'w'] => { flushArr q with toStr := false }
+  | ['K', 'b'] => { flushArr q with both := true }
+  | c :: _ =>
+    let q := flushArr q
+    if c.isUpper || c = '#' then { q with word := q.word ++ [t] } else q
+  | [] => q
+
+/-- some bracket expression in the text drops a reversed range (`[b-a…]`): what the regex crate then makes of
+the remaining class text (a new range across the gap, a compile error) is outside the pattern model -/
+def droppedRange : Str → Bool
+  | [] => false
+  | c :: r =>
+    (c = '[' &&
+      (let r1 := match r with
+         | '!' :: t => t
+         | '^' :: t => t
+         | _ => r
+       match Pattern.parseMembers r1.length r1 with
+       | (n, ms, ']' :: _) => n != ms.length
+       | _ => false)) || droppedRange r
+
+def unmodelled (ext : Bool) (f : Field) : Bool :=
+  let ps := f.map toPattern
+  requiresExpansion ext ps &&
+    (let q := Pattern.parsePat ext (patternText ps)
+     q.backslashAlnum || q.setOp || q.caretFirst || q.hasBang || droppedRange (patternText ps))
+
+def showRes (r : Option (List Str)) : Str :=
+  match r with
+  | none => "ERR".toList
+  | some fs => "OK".toList ++ fs.flatMap fun f => ' ' :: esc f
+
+def act (q : Req) (env : Env) (w : Word) : Str :=
+  if q.toStr then showRes (some [expandToStr env w])
+  else
+    let fields := splitFields env.ifsStr (basicExpand env w)
+    let u := !q.opts.noglob && fields.any (unmodelled q.opts.extglob)
+    showRes (globFields q.opts q.names fields) ++ (if u then " ;U".toList else [])
+
+/-- an item: `x` := its first string, positional parameters and array `k` := its strings -/
+def withItem (env : Env) (it : List Str) : Env :=
+  { env with vars := ("x".toList, it.headD []) :: env.vars, arrays := ("k".toList, it) :: env.arrays, args := it }
+
+/-- `Y<name>`: a command substitution printing the value of `name` (`$(printf %s "$name")`) -/
+def substY (env : Env) (t : Str) : Str :=
+  match t with
+  | 'Y' :: n => 'C' :: ((lookup env.vars n).getD [])
+  | _ => t
+
+def run1 (q : Req) (env : Env) : Str :=
+  let ts := q.word.map (substY env)
+  match parseBWord (ts.length + 1) ts with
+  | none => "bad-word".toList
+  | some bw =>
+    if q.both then
+      act q env (braceJoin bw) ++ " %| ".toList ++ showRes (WordExp.specExpandB env q.opts q.names bw)
+    else act q env (braceJoin bw)
+
+def handle (toks : List Str) : Str :=
+  let q := flushArr ((toks.map unesc).foldl stepReq {})
+  if q.items.isEmpty then run1 q q.env
+  else joinWith " %| ".toList (q.items.map fun it => run1 q (withItem q.env it))
 
 end BrushVerif.Drv.C04
